@@ -344,6 +344,16 @@ partial def loop (h : IO.FS.Stream) (out : IO.FS.Stream) (st : DState) : IO Unit
           let t := F.tree realEnv 8 (col.map String.toNat!)
           out.putStrLn (" ".intercalate ((analyzeTree realEnv F.ctx 100000 t).map toString))
       loop h out st
+  | "measures" :: _ =>
+      match st.forest with
+      | none => out.putStrLn "ERR no-forest"
+      | some F =>
+          let n := F.names.length
+          let ent := entropies realEnv F
+          let m := (List.range n).map (fun i => (List.range n).map (fun j => dependencyEntry realEnv F i j))
+          out.putStrLn (" ".intercalate (ent.map sF) ++ " | " ++ " ".intercalate (m.flatten.map sF))
+      out.putStrLn "END"
+      loop h out st
   | "counts" :: comb =>
       match st.forest with
       | none => out.putStrLn "ERR no-forest"; out.putStrLn "END"
